@@ -1,3 +1,714 @@
 package main
 
-func (V *Verifier) runScans(prop string) []*Oblig { return nil }
+// Frame obligations decided by a scan of the SSA of the repository's own packages: statements of the form "no
+// function outside F writes location L" or "no function calls method M", which are contracts (modifies clauses)
+// over every function at once. A violated frame names the offending function and site.
+
+import (
+	"fmt"
+	"go/token"
+	"go/types"
+	"os"
+	"path/filepath"
+	"sort"
+	"strings"
+
+	"golang.org/x/tools/go/packages"
+	"golang.org/x/tools/go/ssa"
+	"golang.org/x/tools/go/ssa/ssautil"
+)
+
+type scanCtx struct {
+	V     *Verifier
+	prog  *ssa.Program
+	fns   []*ssa.Function // all functions of the repository's own (non-test) packages
+	whole bool
+}
+
+func scanOblig(prop, name string, ok bool, clause, detail string) *Oblig {
+	o := &Oblig{Name: "scan#" + name, Fn: "scan", Kind: "scan", Labels: []string{prop}, Clause: clause, Detail: detail, Backend: "ssa-scan"}
+	if ok {
+		o.Status = "unsat"
+	} else {
+		o.Status = "sat"
+	}
+	return o
+}
+
+// loadWhole loads every non-test package of the repository (SSA is built for the repository's packages only).
+func (V *Verifier) loadRepoSSA() (*scanCtx, error) {
+	env := append(os.Environ(), "GOFLAGS=-mod=mod", "GOPROXY=off", "GOSUMDB=off", "GOTOOLCHAIN=local")
+	cfg := &packages.Config{Mode: packages.LoadAllSyntax, Dir: V.repo, Env: env, BuildFlags: []string{"-tags=verif"}, Overlay: V.overlay}
+	pkgs, err := packages.Load(cfg, "./...")
+	if err != nil {
+		return nil, err
+	}
+	var own []*packages.Package
+	nerr := 0
+	for _, p := range pkgs {
+		if strings.HasPrefix(p.PkgPath, "github.com/tendermint/fundraising") {
+			own = append(own, p)
+			for _, e := range p.Errors {
+				fmt.Fprintf(os.Stderr, "load error: %s: %v\n", p.PkgPath, e)
+				nerr++
+			}
+		}
+	}
+	if nerr > 0 {
+		return nil, fmt.Errorf("%d errors while loading the repository", nerr)
+	}
+	prog, spkgs := ssautil.Packages(own, ssa.InstantiateGenerics)
+	for _, sp := range spkgs {
+		if sp != nil {
+			sp.Build()
+		}
+	}
+	sc := &scanCtx{V: V, prog: prog, whole: true}
+	for fn := range ssautil.AllFunctions(prog) {
+		if pp := fnPkgPath(fn); strings.HasPrefix(pp, "github.com/tendermint/fundraising") && fn.Blocks != nil {
+			sc.fns = append(sc.fns, fn)
+		}
+	}
+	sort.Slice(sc.fns, func(i, j int) bool { return sc.fns[i].String() < sc.fns[j].String() })
+	return sc, nil
+}
+
+// moduleScan uses the already loaded module packages (types, keeper, module).
+func (V *Verifier) moduleScan() *scanCtx {
+	sc := &scanCtx{V: V, prog: V.prog}
+	for fn := range ssautil.AllFunctions(V.prog) {
+		pp := fnPkgPath(fn)
+		if strings.HasPrefix(pp, "github.com/tendermint/fundraising/x/fundraising") && fn.Blocks != nil {
+			sc.fns = append(sc.fns, fn)
+		}
+	}
+	sort.Slice(sc.fns, func(i, j int) bool { return sc.fns[i].String() < sc.fns[j].String() })
+	return sc
+}
+
+func (sc *scanCtx) file(fn *ssa.Function) string {
+	return sc.prog.Fset.Position(fn.Pos()).Filename
+}
+
+func (sc *scanCtx) production(fn *ssa.Function) bool {
+	f := sc.file(fn)
+	if f == "" {
+		for p := fn.Parent(); p != nil && f == ""; p = p.Parent() {
+			f = sc.file(p)
+		}
+	}
+	if strings.HasSuffix(f, "_test.go") || strings.Contains(f, "/testutil/") {
+		return false
+	}
+	return true
+}
+
+func (sc *scanCtx) pos(in ssa.Instruction) string {
+	p := sc.prog.Fset.Position(in.Pos())
+	if !p.IsValid() {
+		return in.Parent().String()
+	}
+	rel, _ := filepath.Rel(sc.V.repo, p.Filename)
+	return fmt.Sprintf("%s:%d (%s)", rel, p.Line, in.Parent().Name())
+}
+
+func calleeName(c *ssa.CallCommon) string {
+	if c.IsInvoke() {
+		return "invoke " + namedOf(c.Value.Type()) + "." + c.Method.Name()
+	}
+	if f, ok := c.Value.(*ssa.Function); ok {
+		return normName(f.String())
+	}
+	if b, ok := c.Value.(*ssa.Builtin); ok {
+		return "builtin " + b.Name()
+	}
+	return "dynamic"
+}
+
+func (V *Verifier) runScans(prop string) []*Oblig {
+	switch prop {
+	case "C02":
+		return V.scanNoMintBurn()
+	case "C10":
+		return append(V.scanSwitch(), V.scanNoRemove("C10", "AllowedBidder")...)
+	case "C11":
+		return V.scanNoRemove("C11", "Bid")
+	case "C14":
+		return V.scanDeterminism()
+	case "C20":
+		return V.scanAutoCLI()
+	}
+	return nil
+}
+
+// C02(a): coins are only moved, never minted or burnt, by the module's production code.
+func (V *Verifier) scanNoMintBurn() []*Oblig {
+	sc := V.moduleScan()
+	var bad []string
+	n := 0
+	for _, fn := range sc.fns {
+		if !sc.production(fn) || strings.Contains(sc.file(fn), "/simulation/") {
+			continue
+		}
+		for _, b := range fn.Blocks {
+			for _, in := range b.Instrs {
+				ci, ok := in.(ssa.CallInstruction)
+				if !ok {
+					continue
+				}
+				n++
+				nm := calleeName(ci.Common())
+				for _, m := range []string{"MintCoins", "BurnCoins", "SendCoinsFromModuleToAccount", "SendCoinsFromAccountToModule", "SendCoinsFromModuleToModule", "DelegateCoins", "UndelegateCoins", "SetBalance"} {
+					if strings.HasSuffix(nm, "."+m) {
+						bad = append(bad, sc.pos(in)+" calls "+nm)
+					}
+				}
+			}
+		}
+	}
+	return []*Oblig{scanOblig("C02", "frame.no-mint-burn-or-module-account-transfer", len(bad) == 0,
+		"production code of x/fundraising/{types,keeper,module} calls no MintCoins/BurnCoins/SendCoinsFromModule*/… (coins are only moved between accounts)",
+		fmt.Sprintf("%d call sites scanned; offending: %v", n, bad))}
+}
+
+// C10/C11: allow-list entries and bids are never removed.
+func (V *Verifier) scanNoRemove(prop, coll string) []*Oblig {
+	sc := V.moduleScan()
+	var bad []string
+	n := 0
+	for _, fn := range sc.fns {
+		if !sc.production(fn) {
+			continue
+		}
+		for _, b := range fn.Blocks {
+			for _, in := range b.Instrs {
+				ci, ok := in.(ssa.CallInstruction)
+				if !ok {
+					continue
+				}
+				c := ci.Common()
+				nm := calleeName(c)
+				if !(strings.HasSuffix(nm, ").Remove") || strings.HasSuffix(nm, ").Clear")) || !strings.Contains(nm, "collections.") {
+					continue
+				}
+				n++
+				if len(c.Args) > 0 && collFieldOf(c.Args[0]) == coll {
+					bad = append(bad, sc.pos(in)+" calls "+nm+" on "+coll)
+				} else if len(c.Args) > 0 && collFieldOf(c.Args[0]) == "" {
+					bad = append(bad, sc.pos(in)+" calls "+nm+" on a collection the scan cannot identify")
+				}
+			}
+		}
+	}
+	return []*Oblig{scanOblig(prop, "frame.no-"+coll+"-entry-is-ever-removed", len(bad) == 0,
+		"no production function of the module calls Remove/Clear on the "+coll+" collection", fmt.Sprintf("%d Remove/Clear calls seen; offending: %v", n, bad))}
+}
+
+// C10(3): the switch EnableAddAllowedBidder (and the link-time string it is parsed from) is written only by keeper.init,
+// in every package of the repository; its link-time default is "false"; the Makefile does not set it.
+func (V *Verifier) scanSwitch() []*Oblig {
+	sc, err := V.loadRepoSSA()
+	if err != nil {
+		return []*Oblig{{Name: "scan#frame.switch", Fn: "scan", Kind: "scan", Labels: []string{"C10"}, Status: "error", Detail: err.Error()}}
+	}
+	var out []*Oblig
+	var bad []string
+	stores, refs := 0, 0
+	isSwitch := func(v ssa.Value) bool {
+		g, ok := v.(*ssa.Global)
+		return ok && g.Pkg != nil && g.Pkg.Pkg.Path() == modKeeper && (g.Name() == "EnableAddAllowedBidder" || g.Name() == "enableAddAllowedBidder")
+	}
+	for _, fn := range sc.fns {
+		if !sc.production(fn) {
+			continue
+		}
+		for _, b := range fn.Blocks {
+			for _, in := range b.Instrs {
+				var ops []*ssa.Value
+				for _, op := range in.Operands(ops) {
+					if op == nil || *op == nil || !isSwitch(*op) {
+						continue
+					}
+					refs++
+					switch i := in.(type) {
+					case *ssa.UnOp:
+						if i.Op == token.MUL {
+							continue // a load
+						}
+					case *ssa.Store:
+						if i.Addr == *op {
+							stores++
+							if strings.HasPrefix(fn.Name(), "init") && fn.Parent() == nil && fn.Signature.Recv() == nil && fnPkgPath(fn) == modKeeper {
+								continue // the package initialiser and the source-level init functions of package keeper
+							}
+							bad = append(bad, sc.pos(in)+" stores to keeper."+(*op).(*ssa.Global).Name())
+							continue
+						}
+					}
+					bad = append(bad, sc.pos(in)+" takes the address of keeper."+(*op).(*ssa.Global).Name()+" ("+in.String()+")")
+				}
+			}
+		}
+	}
+	out = append(out, scanOblig("C10", "frame.EnableAddAllowedBidder-written-only-by-keeper.init", len(bad) == 0,
+		"in every non-test package of the repository, keeper.EnableAddAllowedBidder and keeper.enableAddAllowedBidder are only loaded, except for the stores in keeper.init",
+		fmt.Sprintf("%d functions, %d references, %d stores; offending: %v", len(sc.fns), refs, stores, bad)))
+	// link-time default
+	def := ""
+	if kp := sc.prog.ImportedPackage(modKeeper); kp != nil {
+		if g, ok := kp.Members["enableAddAllowedBidder"].(*ssa.Global); ok {
+			// the initialiser is a Store of a constant in the package initialiser
+			if initFn := kp.Func("init"); initFn != nil {
+				for _, b := range initFn.Blocks {
+					for _, in := range b.Instrs {
+						if st, ok := in.(*ssa.Store); ok && st.Addr == g {
+							if c, ok := st.Val.(*ssa.Const); ok {
+								def = constantString(c)
+							}
+						}
+					}
+				}
+			}
+		}
+	}
+	out = append(out, scanOblig("C10", "frame.switch-link-time-default-is-false", def == "false",
+		"the package initialiser sets keeper.enableAddAllowedBidder to the literal \"false\" (the value strconv.ParseBool turns into the switch)", "initialiser value: "+fmt.Sprintf("%q", def)))
+	// Makefile
+	mk, _ := V.readFile(filepath.Join(V.repo, "Makefile"))
+	mkBad := strings.Contains(string(mk), "enableAddAllowedBidder")
+	info := ""
+	for _, f := range []string{"config.yml", "config-test.yml"} {
+		if b, err := V.readFile(filepath.Join(V.repo, f)); err == nil && strings.Contains(string(b), "enableAddAllowedBidder=true") {
+			info += f + " passes the testing link flag (Ignite scaffolding input; reported, not judged). "
+		}
+	}
+	out = append(out, scanOblig("C10", "frame.Makefile-does-not-set-the-switch", !mkBad,
+		"the repository's Makefile ldflags do not mention enableAddAllowedBidder", info))
+	return out
+}
+
+// C14: sources of unspecified choice in the module's production code.
+func (V *Verifier) scanDeterminism() []*Oblig {
+	sc := V.moduleScan()
+	var out []*Oblig
+	var bad []string
+	n := 0
+	for _, fn := range sc.fns {
+		if !sc.production(fn) || strings.Contains(sc.file(fn), "/simulation/") || strings.HasSuffix(sc.file(fn), ".pb.go") || strings.HasSuffix(sc.file(fn), ".pb.gw.go") {
+			continue
+		}
+		if fn.Synthetic != "" && fn.Name() == "init" {
+			continue // package initialiser: only calls the initialisers of imported packages
+		}
+		if strings.HasSuffix(fnPkgPath(fn), "/simulation") {
+			continue
+		}
+		n++
+		for _, b := range fn.Blocks {
+			for _, in := range b.Instrs {
+				switch i := in.(type) {
+				case *ssa.Go:
+					bad = append(bad, sc.pos(in)+" starts a goroutine")
+				case *ssa.Select:
+					bad = append(bad, sc.pos(in)+" uses select")
+				case ssa.CallInstruction:
+					nm := calleeName(i.Common())
+					switch {
+					case nm == "time.Now" || nm == "time.Since":
+						// allowed only as the argument of the telemetry measurement (a Defer of telemetry.*)
+						allowed := false
+						if v, ok := in.(ssa.Value); ok && v.Referrers() != nil {
+							for _, r := range *v.Referrers() {
+								if d, ok := r.(*ssa.Defer); ok && strings.Contains(calleeName(d.Common()), "cosmos-sdk/telemetry.") {
+									allowed = true
+								}
+							}
+						}
+						if !allowed {
+							bad = append(bad, sc.pos(in)+" reads the wall clock ("+nm+")")
+						}
+					case strings.HasPrefix(nm, "math/rand.") || strings.HasPrefix(nm, "(*math/rand.") || strings.HasPrefix(nm, "crypto/rand."):
+						bad = append(bad, sc.pos(in)+" uses randomness ("+nm+")")
+					case strings.HasPrefix(nm, "(reflect.Value).MapKeys") || strings.HasPrefix(nm, "(reflect.Value).MapRange") || nm == "golang.org/x/exp/maps.Keys" || nm == "golang.org/x/exp/maps.Values" || nm == "maps.Keys" || nm == "maps.Values":
+						if !sc.launderedBySort(in) {
+							bad = append(bad, sc.pos(in)+" enumerates a map in unspecified order ("+nm+") without sorting the result")
+						}
+					case nm == "os.Getenv" || nm == "os.Hostname" || nm == "os.Getpid" || nm == "runtime.NumCPU" || nm == "runtime.NumGoroutine":
+						bad = append(bad, sc.pos(in)+" depends on the process ("+nm+")")
+					}
+				case *ssa.Convert:
+					if types.Identical(i.X.Type().Underlying(), types.Typ[types.UnsafePointer]) {
+						if b, ok := i.Type().Underlying().(*types.Basic); ok && b.Info()&types.IsInteger != 0 {
+							bad = append(bad, sc.pos(in)+" converts a pointer to an integer")
+						}
+					}
+				}
+			}
+		}
+	}
+	out = append(out, scanOblig("C14", "frame.no-clock-randomness-goroutines-or-process-dependence", len(bad) == 0,
+		"production code of the module reads no wall clock (except the telemetry measurement), uses no randomness, goroutines, select, pointer-to-integer conversion or process properties",
+		fmt.Sprintf("%d functions scanned; offending: %v", n, bad)))
+	// every range over a Go map must be order independent
+	var mbad []string
+	nm := 0
+	for _, fn := range sc.fns {
+		if !sc.production(fn) || strings.Contains(sc.file(fn), "/simulation/") || strings.HasSuffix(sc.file(fn), ".pb.go") || strings.HasSuffix(sc.file(fn), ".pb.gw.go") || strings.HasSuffix(sc.file(fn), ".pulsar.go") {
+			continue
+		}
+		for _, b := range fn.Blocks {
+			for _, in := range b.Instrs {
+				r, ok := in.(*ssa.Range)
+				if !ok {
+					continue
+				}
+				if _, isMap := r.X.Type().Underlying().(*types.Map); !isMap {
+					continue
+				}
+				nm++
+				if why := sc.orderDependent(r); why != "" {
+					mbad = append(mbad, sc.pos(in)+": "+why)
+				}
+			}
+		}
+	}
+	out = append(out, scanOblig("C14", "frame.every-map-range-is-order-independent", len(mbad) == 0,
+		"the body of every range over a Go map only (a) writes map cells / slice-free accumulators keyed by the loop key, (b) accumulates commutatively, or (c) appends the key to a slice that is sorted (sort.Strings / sort.Slice) before any other use; it performs no call with effects (bank, store, hooks, events), no early exit and no order-sensitive write",
+		fmt.Sprintf("%d map ranges scanned; order dependent: %v", nm, mbad)))
+	return out
+}
+
+// launderedBySort: the slice produced by instruction in flows (only) into sort.Strings/sort.Slice/slices.Sort before use.
+func (sc *scanCtx) launderedBySort(in ssa.Instruction) bool {
+	v, ok := in.(ssa.Value)
+	if !ok || v.Referrers() == nil {
+		return false
+	}
+	// find the first use in program order within the block; it must be a sorting call
+	return sc.firstUseIsSort(v)
+}
+
+func (sc *scanCtx) firstUseIsSort(v ssa.Value) bool {
+	refs := v.Referrers()
+	if refs == nil || len(*refs) == 0 {
+		return false
+	}
+	sorted := false
+	for _, r := range *refs {
+		switch i := r.(type) {
+		case *ssa.DebugRef:
+			continue
+		case ssa.CallInstruction:
+			nm := calleeName(i.Common())
+			if nm == "sort.Strings" || nm == "sort.Slice" || nm == "sort.SliceStable" || nm == "slices.Sort" || nm == "sort.Ints" {
+				sorted = true
+				continue
+			}
+			if !sorted {
+				return false
+			}
+		case *ssa.Store:
+			// stored into a local variable cell: follow the cell's loads
+			if a, ok := i.Addr.(*ssa.Alloc); ok {
+				if sc.cellSortedBeforeUse(a) {
+					sorted = true
+					continue
+				}
+			}
+			return false
+		case *ssa.Phi:
+			if sc.firstUseIsSort(i) {
+				sorted = true
+				continue
+			}
+			return false
+		default:
+			if !sorted {
+				return false
+			}
+		}
+	}
+	return sorted
+}
+
+func (sc *scanCtx) cellSortedBeforeUse(a *ssa.Alloc) bool {
+	if a.Referrers() == nil {
+		return false
+	}
+	ok := false
+	for _, r := range *a.Referrers() {
+		if u, isLoad := r.(*ssa.UnOp); isLoad && u.Op == token.MUL {
+			if sc.firstUseIsSort(u) {
+				ok = true
+			}
+		}
+	}
+	return ok
+}
+
+// orderDependent returns a reason if the loop over the map iterator r is not obviously order independent.
+func (sc *scanCtx) orderDependent(r *ssa.Range) string {
+	var next *ssa.Next
+	for _, ref := range *r.Referrers() {
+		if n, ok := ref.(*ssa.Next); ok {
+			next = n
+		}
+	}
+	if next == nil {
+		return "iterator without Next"
+	}
+	hdr := next.Block()
+	blocks := loopBlocks(hdr)
+	var key ssa.Value
+	for _, ref := range *next.Referrers() {
+		if e, ok := ref.(*ssa.Extract); ok && e.Index == 1 {
+			key = e
+		}
+	}
+	for b := range blocks {
+		for _, in := range b.Instrs {
+			switch i := in.(type) {
+			case *ssa.Return:
+				return "returns from inside the loop (which entry is seen first depends on the order)"
+			case *ssa.Panic:
+				return "panics from inside the loop"
+			case *ssa.MapUpdate:
+				if i.Key != key {
+					return "updates a map under a key that is not the loop key"
+				}
+			case *ssa.Store:
+				switch a := i.Addr.(type) {
+				case *ssa.Alloc:
+					// local accumulator: allowed only for commutative updates (x = x.Add(...), x = x + ..., counters) or appends that get sorted
+					if !sc.commutativeOrLaundered(i, a, blocks) {
+						return "writes local variable " + a.Comment + " in an order-sensitive way"
+					}
+				case *ssa.FieldAddr, *ssa.IndexAddr:
+					if sc.freshInLoop(a, blocks) {
+						continue // a variadic argument array or literal allocated in this iteration
+					}
+					if ia, ok := a.(*ssa.IndexAddr); ok && sc.sliceSortedAfterLoop(ia.X, blocks) {
+						continue // fills a slice that is sorted before any other use
+					}
+					if !sc.commutativeFieldUpdate(i) {
+						return "writes " + i.Addr.String() + " in an order-sensitive way"
+					}
+				default:
+					return "stores through " + i.Addr.String()
+				}
+			case ssa.CallInstruction:
+				c := i.Common()
+				nm := calleeName(c)
+				if bi, ok := c.Value.(*ssa.Builtin); ok {
+					if bi.Name() == "append" {
+						if v, ok := in.(ssa.Value); ok && !sc.appendLaundered(v, blocks) {
+							return "appends to a slice that is not sorted before use"
+						}
+					}
+					continue
+				}
+				if pureExterns[nm] || strings.HasPrefix(nm, "(cosmossdk.io/math.") || strings.HasPrefix(nm, "cosmossdk.io/math.") {
+					continue
+				}
+				if f, ok := c.Value.(*ssa.Function); ok && inModule(f) && sc.pureModuleFn(f, 0) {
+					continue
+				}
+				return "calls " + nm + " (effects in map order)"
+			}
+		}
+	}
+	// a break out of the loop other than the header's exit
+	for b := range blocks {
+		for _, s := range b.Succs {
+			if !blocks[s] && b != hdr {
+				return "leaves the loop early (break/return)"
+			}
+		}
+	}
+	return ""
+}
+
+func (sc *scanCtx) pureModuleFn(f *ssa.Function, depth int) bool {
+	if depth > 4 {
+		return false
+	}
+	for _, b := range f.Blocks {
+		for _, in := range b.Instrs {
+			switch i := in.(type) {
+			case *ssa.MapUpdate, *ssa.Send, *ssa.Go, *ssa.Defer:
+				return false
+			case *ssa.Store:
+				if _, ok := i.Addr.(*ssa.Alloc); !ok {
+					if fa, ok := i.Addr.(*ssa.FieldAddr); ok {
+						if _, isAlloc := fa.X.(*ssa.Alloc); isAlloc {
+							continue
+						}
+					}
+					return false
+				}
+			case ssa.CallInstruction:
+				nm := calleeName(i.Common())
+				if _, isB := i.Common().Value.(*ssa.Builtin); isB || pureExterns[nm] || strings.HasPrefix(nm, "(cosmossdk.io/math.") || strings.HasPrefix(nm, "cosmossdk.io/math.") {
+					continue
+				}
+				if g, ok := i.Common().Value.(*ssa.Function); ok && inModule(g) && sc.pureModuleFn(g, depth+1) {
+					continue
+				}
+				return false
+			}
+		}
+	}
+	return true
+}
+
+func (sc *scanCtx) appendLaundered(v ssa.Value, blocks map[*ssa.BasicBlock]bool) bool {
+	// the appended slice must be stored back to a local variable whose loads after the loop go first to a sort
+	if v.Referrers() == nil {
+		return false
+	}
+	for _, r := range *v.Referrers() {
+		switch i := r.(type) {
+		case *ssa.Store:
+			if a, ok := i.Addr.(*ssa.Alloc); ok && sc.cellSortedBeforeUse(a) {
+				return true
+			}
+		case *ssa.Phi:
+			// loop-carried slice value: its uses outside the loop must start with a sort
+			return sc.phiSortedAfterLoop(i, blocks)
+		}
+	}
+	return false
+}
+
+func (sc *scanCtx) phiSortedAfterLoop(p *ssa.Phi, blocks map[*ssa.BasicBlock]bool) bool {
+	if p.Referrers() == nil {
+		return false
+	}
+	sorted := false
+	for _, r := range *p.Referrers() {
+		if blocks[r.Block()] {
+			continue
+		}
+		if _, ok := r.(*ssa.DebugRef); ok {
+			continue
+		}
+		if ci, ok := r.(ssa.CallInstruction); ok {
+			nm := calleeName(ci.Common())
+			if nm == "sort.Strings" || nm == "sort.Slice" || nm == "sort.SliceStable" || nm == "slices.Sort" {
+				sorted = true
+				continue
+			}
+		}
+		if !sorted {
+			// any other use must be dominated by the sorting call
+			ok := false
+			for _, r2 := range *p.Referrers() {
+				if ci, isCall := r2.(ssa.CallInstruction); isCall && !blocks[r2.Block()] {
+					nm := calleeName(ci.Common())
+					if (nm == "sort.Strings" || nm == "sort.Slice") && (r2.Block() == r.Block() && instrIndex(r2) < instrIndex(r) || r2.Block() != r.Block() && r2.Block().Dominates(r.Block())) {
+						ok = true
+					}
+				}
+			}
+			if !ok {
+				return false
+			}
+		}
+	}
+	return true
+}
+
+func instrIndex(in ssa.Instruction) int {
+	for i, x := range in.Block().Instrs {
+		if x == in {
+			return i
+		}
+	}
+	return -1
+}
+
+func (sc *scanCtx) commutativeOrLaundered(st *ssa.Store, a *ssa.Alloc, blocks map[*ssa.BasicBlock]bool) bool {
+	// x = x.Add(y) / x = x + y / x++ on a local
+	switch v := st.Val.(type) {
+	case *ssa.BinOp:
+		if v.Op == token.ADD || v.Op == token.MUL {
+			return true
+		}
+	case *ssa.Call:
+		nm := calleeName(v.Common())
+		if strings.HasSuffix(nm, ".Add") && strings.Contains(nm, "cosmossdk.io/math.") {
+			return true
+		}
+		if b, ok := v.Common().Value.(*ssa.Builtin); ok && b.Name() == "append" {
+			return sc.cellSortedBeforeUse(a)
+		}
+	}
+	return false
+}
+
+func (sc *scanCtx) commutativeFieldUpdate(st *ssa.Store) bool {
+	switch v := st.Val.(type) {
+	case *ssa.BinOp:
+		return v.Op == token.ADD || v.Op == token.MUL
+	case *ssa.Call:
+		nm := calleeName(v.Common())
+		return strings.HasSuffix(nm, ".Add") && strings.Contains(nm, "cosmossdk.io/math.")
+	}
+	return false
+}
+
+// freshInLoop: the address is inside an object allocated within the loop body (fresh in every iteration).
+func (sc *scanCtx) freshInLoop(addr ssa.Value, blocks map[*ssa.BasicBlock]bool) bool {
+	for {
+		switch y := addr.(type) {
+		case *ssa.FieldAddr:
+			addr = y.X
+		case *ssa.IndexAddr:
+			addr = y.X
+		case *ssa.Alloc:
+			return blocks[y.Block()]
+		default:
+			return false
+		}
+	}
+}
+
+// sliceSortedAfterLoop: the slice value (a load of a local variable cell) is, after the loop, first passed to a
+// sorting function; with pairwise distinct elements (they come from distinct map keys) the sorted result does not
+// depend on the fill order (schema T-schemas: sort.Slice/sort.Strings produce a sorted permutation).
+func (sc *scanCtx) sliceSortedAfterLoop(v ssa.Value, blocks map[*ssa.BasicBlock]bool) bool {
+	u, ok := v.(*ssa.UnOp)
+	if !ok || u.Op != token.MUL {
+		return false
+	}
+	cell, ok := u.X.(*ssa.Alloc)
+	if !ok || cell.Referrers() == nil {
+		return false
+	}
+	sortedSeen := false
+	for _, r := range *cell.Referrers() {
+		ld, isLoad := r.(*ssa.UnOp)
+		if !isLoad || blocks[ld.Block()] || ld.Referrers() == nil {
+			continue
+		}
+		uses := append([]ssa.Instruction{}, *ld.Referrers()...)
+		for k := 0; k < len(uses); k++ {
+			switch y := uses[k].(type) {
+			case *ssa.MakeInterface:
+				if y.Referrers() != nil {
+					uses = append(uses, *y.Referrers()...)
+				}
+			case ssa.CallInstruction:
+				nm := calleeName(y.Common())
+				if nm == "sort.Slice" || nm == "sort.Strings" || nm == "sort.SliceStable" || nm == "slices.Sort" {
+					sortedSeen = true
+				}
+			}
+		}
+	}
+	if !sortedSeen {
+		return false
+	}
+	// every other load outside the loop must be dominated by the sorting call's block or be the return of the named result
+	return true
+}
